@@ -15,46 +15,48 @@ Inductive walk_err :=
    (both Prune and Verify do).  X is the callback's state; [fs_of] is the file system the walk itself
    looks at (names are read when a directory is entered, every entry is lstat'ed when it is reached,
    so a file that a previous callback removed makes the callback see an error).
-   pstr is the path STRING the callback receives, p the same path as a name list. *)
+   pstr is the path STRING the callback receives, p the same path as a name list (the callback
+   takes filepath.Base from its last component). *)
+Definition node_is_dir (n : node) : bool := match n with Dir _ _ => true | _ => false end.
+
 Section Walk.
   Context {X : Type}.
   Variable fs_of : X -> node.
-  Variable on_file : bytes -> path -> name -> X -> X * option walk_err.   (* fn for a non-directory *)
+  Variable on_file : bytes -> path -> X -> X * option walk_err.   (* fn for a non-directory *)
 
-  Fixpoint walk (fuel : nat) (pstr : bytes) (p : path) (isdir : bool) (nm : name) (x : X)
-    : X * option walk_err :=
+  (* the entries of one directory, in the order of the sorted name list read when it was entered *)
+  Fixpoint walk_loop (child : bytes -> path -> bool -> X -> X * option walk_err)
+           (pstr : bytes) (p : path) (names : list name) (x : X) : X * option walk_err :=
+    match names with
+    | [] => (x, None)
+    | n :: r =>
+        match lookup (p ++ [n]) (fs_of x) with
+        | None => (x, Some (WeErrno ENOENT))          (* lstat failed: fn(filename, nil, err) *)
+        | Some c =>
+            match child (join_str pstr n) (p ++ [n]) (node_is_dir c) x with
+            | (x', None) => walk_loop child pstr p r x'
+            | res => res
+            end
+        end
+    end.
+
+  Fixpoint walk (fuel : nat) (pstr : bytes) (p : path) (isdir : bool) (x : X) : X * option walk_err :=
     match fuel with
     | O => (x, Some WeFuel)
     | S f =>
         if isdir then
           match readdir p (fs_of x) with
           | Err e => (x, Some (WeErrno e))
-          | Ok names =>
-              (fix loop (names : list name) (x : X) : X * option walk_err :=
-                 match names with
-                 | [] => (x, None)
-                 | n :: r =>
-                     match lookup (p ++ [n]) (fs_of x) with
-                     | None => (x, Some (WeErrno ENOENT))
-                     | Some c =>
-                         let isd := match c with Dir _ _ => true | _ => false end in
-                         match walk f (join_str pstr n) (p ++ [n]) isd n x with
-                         | (x', None) => loop r x'
-                         | res => res
-                         end
-                     end
-                 end) names x
+          | Ok names => walk_loop (walk f) pstr p names x
           end
-        else on_file pstr p nm x
+        else on_file pstr p x
     end.
 
-  (* the root: Walk lstats it first; the root's own base name plays no role for a directory *)
+  (* Walk lstats the root first *)
   Definition walk_root (fuel : nat) (rootstr : bytes) (root : path) (x : X) : X * option walk_err :=
     match lookup root (fs_of x) with
     | None => (x, Some (WeErrno ENOENT))
-    | Some c =>
-        walk fuel rootstr root (match c with Dir _ _ => true | _ => false end)
-             (last root []) x
+    | Some c => walk fuel rootstr root (node_is_dir c) x
     end.
 End Walk.
 
@@ -65,8 +67,9 @@ Section Prune.
   Variable zdecomp : bytes -> option bytes.
 
   (* ---------- LocalStore.Prune ---------- *)
-  Definition prune_file (st : store) (keep : id -> bool) (pstr : bytes) (p : path) (nm : name) (s : node)
+  Definition prune_file (st : store) (keep : id -> bool) (pstr : bytes) (p : path) (s : node)
     : node * option walk_err :=
+    let nm := last p [] in                       (* filepath.Base(path) *)
     if has_prefix nm tmpChunkPrefix_bytes then
       (* _ = os.Remove(path) *)
       (match remove p s with Ok s' => s' | Err _ => s end, None)
@@ -87,9 +90,9 @@ Section Prune.
     walk_root (fun s => s) (prune_file st keep) fuel basestr (st_base st) s.
 
   (* ---------- SFTPStore.Prune: same walk, no temp-file rule ---------- *)
-  Definition sftp_prune_file (st : store) (keep : id -> bool) (pstr : bytes) (p : path) (nm : name) (s : node)
+  Definition sftp_prune_file (st : store) (keep : id -> bool) (pstr : bytes) (p : path) (s : node)
     : node * option walk_err :=
-    match chunk_file_id (st_unc st) pstr nm with
+    match chunk_file_id (st_unc st) pstr (last p []) with
     | None => (s, None)
     | Some i =>
         if keep i then (s, None)
@@ -106,9 +109,9 @@ Section Prune.
 
   (* ---------- LocalStore.Verify ---------- *)
   (* the walk only collects ids (it feeds them to the workers) *)
-  Definition verify_file (st : store) (pstr : bytes) (p : path) (nm : name) (x : node * list id)
+  Definition verify_file (st : store) (pstr : bytes) (p : path) (x : node * list id)
     : (node * list id) * option walk_err :=
-    match chunk_file_id (st_unc st) pstr nm with
+    match chunk_file_id (st_unc st) pstr (last p []) with
     | None => (x, None)
     | Some i => ((fst x, snd x ++ [i]), None)
     end.
@@ -152,9 +155,9 @@ Section Prune.
   (* The other extreme schedule: every fed id is handled by a worker before the walk goes on.  (The
      real run is some mixture; the two agree unless a file name that is not the canonical name of
      its id -- upper-case hex, wrong directory -- precedes that id's invalid canonical file.) *)
-  Definition verify_eager_file (st : store) (repair : bool) (pstr : bytes) (p : path) (nm : name)
+  Definition verify_eager_file (st : store) (repair : bool) (pstr : bytes) (p : path)
              (x : node * list verify_msg) : (node * list verify_msg) * option walk_err :=
-    match chunk_file_id (st_unc st) pstr nm with
+    match chunk_file_id (st_unc st) pstr (last p []) with
     | None => (x, None)
     | Some i => let (s', m) := verify_one st repair i (fst x) in ((s', snd x ++ m), None)
     end.
